@@ -433,10 +433,20 @@ impl<'a> Trial<'a> {
                 let all: Vec<String> = vec!["n0".into(), "n1".into(), "n2".into()];
                 let tr = crate::net::SimTransport::new("n1", &all, &crate::net::new_net());
                 let donor = tensor_chain::raft::RaftNode::new("n1".into(), vec!["n0".into(), "n2".into()], tr, raft_cfg(self.case));
+                // a snapshot is a prefix of the committed log: where the node itself holds
+                // committed entries the snapshot carries the same ones (state machine safety
+                // of the scripted cluster); beyond that, entries of the sender's term
+                let committed = node.commit_index().min(l);
                 let mut entries = Vec::new();
                 for j in 0..cnt {
-                    let pl = self.script_payload(term, 1 + j);
-                    entries.push(LogEntry::new(term, 1 + j, mk_block(pl, "n2", false)));
+                    let idx = 1 + j;
+                    if idx <= committed {
+                        let e = &img.log[idx as usize - 1];
+                        entries.push(LogEntry::new(e.term, idx, mk_block(e.payload, &e.proposer, self.case.fast_path)));
+                    } else {
+                        let pl = self.script_payload(term, idx);
+                        entries.push(LogEntry::new(term, idx, mk_block(pl, "n2", false)));
+                    }
                 }
                 let ae = Message::AppendEntries(AppendEntries {
                     term,
@@ -818,6 +828,18 @@ impl Scenario for C10 {
                 Step::VoteResp { from, granted: true, dterm: 0 },
                 Step::AppendResp { from, ok: true, back: 0, dterm: 0 },
                 Step::Propose { payload: rng.below(1000) as u32 },
+            ];
+            steps.splice(at..at, seq);
+        }
+        // a sixth of the cases: entries committed, the log compacted, then a snapshot installed
+        // on the compacted log (crash points inside each of the three)
+        if rng.chance(1, 6) {
+            let at = rng.usize_below(steps.len() + 1);
+            let from = rng.below(2) as u8;
+            let seq = vec![
+                Step::Append { from, dterm: rng.range(0, 1) as i8, back: 0, n: rng.range(2, 3) as u8, commit_back: 0, bad_prev: false, old: 0, big: 0 },
+                Step::Compact { back: rng.below(2) as u8 },
+                Step::InstallSnapshot { n: rng.below(5) as u8, dterm: 0 },
             ];
             steps.splice(at..at, seq);
         }
